@@ -149,3 +149,40 @@ Theorem C13_last_recv_close_drains_senders : forall m s ts, reach m s -> open_re
   open_recv s' = 0 /\ forall t e x, phase_of s' t <> SendWait e x.
 Proof. exact ms_last_recv_close_drains_senders. Qed.
 Print Assumptions C13_last_recv_close_drains_senders.
+
+(* ---- tie T (see props/C12.v): clone(), close() with its wake-ups, and the two places where the errors of this
+   property are decided in the regenerated code: BrokenResourceError after send_event.wait() returned with the entry
+   still queued, EndOfStream when receiver.item was never set (C12_tie_recv_event_resumed). ---- *)
+From AV Require Import MemImp MemGen MemGenEq.
+
+Theorem C13_tie_clone : forall s h t,
+  Nat.ltb h (nh s) = true -> phase_of s t = Idle ->
+  runs s (fst (step s (Clone h))) (snd (step s (Clone h))) h t KPlain
+       (match hside s h with SSend => snd_clone_entry | SRecv => rcv_clone_entry end) (loc0 None).
+Proof. exact tie_clone. Qed.
+Print Assumptions C13_tie_clone.
+
+Theorem C13_tie_close : forall s h t,
+  Nat.ltb h (nh s) = true -> phase_of s t = Idle ->
+  runs s (fst (step s (Close h))) (snd (step s (Close h))) h t KPlain
+       (match hside s h with SSend => snd_close_entry | SRecv => rcv_close_entry end) (loc0 None).
+Proof. exact tie_close. Qed.
+Print Assumptions C13_tie_close.
+
+Theorem C13_tie_send_event_resumed : forall s t e x,
+  phase_of s t = SendWait e x -> fut s e = FSet -> mustc s t = false ->
+  forall h, runs (finish s t) (fst (step s (Resume t))) (snd (step s (Resume t))) h t (KSend h x)
+       snd_send_event_resumed (loc_resume (Some x) (Some e) false None).
+Proof. exact tie_send_event_resumed. Qed.
+Print Assumptions C13_tie_send_event_resumed.
+
+Theorem C13_tie_gen_close_wakes_all : forall m s,
+  grun mem_prog m s ->
+  (open_send s = 0 -> forall t e, phase_of s t = RecvWait e ->
+     fut s e <> FPending /\ snd (step s (Resume t)) <> RRejected /\ snd (step s (Resume t)) <> RBlocked) /\
+  (open_recv s = 0 -> forall t e x, phase_of s t = SendWait e x ->
+     fut s e <> FPending /\ snd (step s (Resume t)) <> RRejected /\ snd (step s (Resume t)) <> RBlocked) /\
+  (receivers s <> [] -> buffer s = [] /\ senders s = []).
+Proof. exact gen_close_wakes_all. Qed.
+Print Assumptions C13_tie_gen_close_wakes_all.
+
